@@ -105,6 +105,26 @@ func aolListings(p *Prog, r *Report, m *aolModel, clause string) {
 			}
 			r.Check(allReq, kp("ORIGIN", hn+"#key-from-request"), "every key component of the view comes from a request field", p.Pos(get.cs.Instr.Pos()),
 				strings.Join(from, ", "), "key "+fmt.Sprint(get.key))
+			// the view refuses no name a stored entry can have: a length limit it puts on a key component is at least the limit
+			// the message validators put on the field of the same name
+			for n, t := range kf {
+				ub := lenBoundAt(p, fa, get.cs.Instr, t)
+				if ub < 0 {
+					continue
+				}
+				max := int64(-1)
+				for _, mt := range p.Msgs() {
+					if !strings.HasPrefix(mt.Obj().Pkg().Path(), Rel("x/aol")) {
+						continue
+					}
+					if hi, ok := msgFieldMax(p, mt, n); ok && int64(hi) > max {
+						max = int64(hi)
+					}
+				}
+				r.Check(max < 0 || ub >= max, kp("GUARD", hn+"#"+n+"-limit-admits-stored-names"), "a view refuses no key a stored entry can have (its length limit on a component is not below the validators' limit)", p.Pos(get.cs.Instr.Pos()),
+					fmt.Sprintf("%s: at most %d bytes accepted by the view, at most %d by the messages", n, ub, max),
+					fmt.Sprintf("the view accepts %s of at most %d bytes, the messages accept up to %d: entries with a longer name are stored and acknowledged but can never be read back", n, ub, max))
+			}
 			continue
 		}
 		nList++
